@@ -20,7 +20,7 @@ func Goid() int64 {
 
 // GateEvent is what a scheduled worker reports: it parked at a gate, or its call returned.
 type GateEvent struct {
-	Parked   string      // gate name, "" when returned
+	Parked   string // gate name, "" when returned
 	Returned bool
 	Result   interface{} // the call's result when Returned
 }
